@@ -44,6 +44,8 @@ impl Socket {
         // send the rest (no node will attempt to reassemble two or more datagrams into a
         // meaningful message).
         let encoded = bencode::encode(message).map_err(io::Error::other)?;
+        #[cfg(btdht_verif)]
+        crate::verif_log::record(format!("SEND {addr} {}", crate::verif_log::hex(&encoded)));
         self.inner_socket.send_to(&encoded, &addr).await?;
         Ok(())
     }
@@ -74,6 +76,12 @@ impl Socket {
         loop {
             let r = self.inner_socket.recv_from(&mut buffer).await;
             let (size, addr) = r?;
+            #[cfg(btdht_verif)]
+            crate::verif_log::record(format!(
+                "RECV {addr} {} {}",
+                crate::verif_log::hex(&buffer[0..size]),
+                if bencode::decode::<Message>(&buffer[0..size]).is_ok() { "ok" } else { "undecodable" }
+            ));
             match bencode::decode::<Message>(&buffer[0..size]) {
                 Ok(message) => {
                     if let Some(responded) = self
@@ -82,6 +90,8 @@ impl Socket {
                         .unwrap()
                         .remove(&(addr, message.transaction_id.clone()))
                     {
+                        #[cfg(btdht_verif)]
+                        crate::verif_log::record(format!("TO_BOOTSTRAP {addr}"));
                         responded.lock().unwrap().make_ready(message);
                     } else {
                         return Ok((message, addr));
